@@ -441,8 +441,13 @@ mod v_socket_tcp {
         let pre_nxt = sadd(s.remote_seq_no, g.rxlen);
         let pre_asm = s.assembler.clone();
         let pre_timer = s.timer;
+        crate::vdump!("PRE now={} {:?}", now, s);
+        crate::vdump!("GHOST base={} stream={:?} fin_at={} r={} rxlen={} wnd={}", g.base, g.stream, g.fin_at, g.r, g.rxlen, g.wnd);
+        crate::vdump!("SEG {:?} payload={:?}", repr, &sb.payload[..sb.plen]);
         let reply = s.process(cx, &ip_repr, &repr);
         let post = s.state;
+        crate::vdump!("REPLY {:?}", reply);
+        crate::vdump!("POST {:?}", s);
 
         // ---- C17: only RFC edges, each with its prescribed cause
         assert!(edge_allowed(g.state, post), "prop:c17_edge_in_rfc_diagram");
@@ -607,6 +612,7 @@ mod v_socket_tcp {
         kani::assume(!pending(&s) || s.poll_at(cx) != PollAt::Ingress);
 
         let nowi = Instant::from_millis(now);
+        crate::vdump!("PRE now={} {:?}", now, s);
         let pre_win = s.remote_win_len;
         let pre_mss = s.remote_mss;
         let pre_zwp = s.timer.should_zero_window_probe(nowi);
@@ -656,6 +662,8 @@ mod v_socket_tcp {
         });
         assert!(res.is_ok() == (emit_ok || !seen), "prop:c09_emit_error_passed_through");
         let post = s.state;
+        crate::vdump!("EMIT seen={} ok={} seq={} len={} ctl={:?} ack={:?} win={} | ghost una={} inflight={} txlen={} txread={}", seen, emit_ok, e_seq, e_len, e_ctl, e_ack, e_win, g.una, g.inflight, g.txlen, g.txread);
+        crate::vdump!("POST {:?}", s);
 
         // ---- C17: dispatch changes state only by timeout (-> CLOSED) or TIME-WAIT expiry
         if post != g.state {
@@ -679,7 +687,8 @@ mod v_socket_tcp {
                 assert!(e_len <= pre_mss, "prop:c05_payload_within_peer_mss");
                 assert!(e_iplen <= ip_mtu, "prop:c05_segment_within_mtu");
                 let off = sd(e_seq, g.una);
-                let is_ka = pre_ka && e_len == 1 && off == g.inflight as i32 - 1 && e_bytes[0] == 0 && e_ctl == TcpControl::None;
+                // keep-alive: one garbage byte 0 just below SND.NXT, no state change (RFC 1122 4.2.3.6)
+                let is_ka = e_len == 1 && e_bytes[0] == 0 && e_ctl == TcpControl::None && sd(e_seq, s.remote_last_seq) == -1;
                 if e_len > 0 && !is_ka {
                     assert!(off >= 0, "prop:c05_never_sends_below_snd_una");
                     let off = off as usize - g.syn_unacked as usize;
